@@ -68,6 +68,9 @@ CHECKS = {
  "C19": dict(engine="seqx-world", cat="model_checking", tech=SEQ_TECH,
   text="All operation lists up to a length bound over {open by opener 1/2, close, drop (the runtime is then run so that the Drop-spawned close completes), a child process opens the directory, SIGKILL the child}, generated against the ownership state machine, are executed on the real store: at most one opener ever holds the directory, a refused open (in-process or cross-process) returns an error and leaves every file incl. LOCK byte-identical, and after close / drop / death of the owner the next open succeeds and sees the committed data.",
   note="Exhaustive within the length bound; an open attempt racing with the individual steps of a concurrent close() is not explored (close() is not run under the scheduler).", ref="DESIGN.md §5 C19"),
+ "C10": dict(engine="seqx-world", cat="model_checking", tech=SEQ_TECH,
+  text="All histories of n timestamped writes (set, soft delete, hard delete, replace; two keys; strictly increasing timestamps) crossed with every placement of d physical operations (flush, compaction, reopen) are executed on three configurations (LSM scan with 2 and 3 levels, B+tree version index); after every step get_at for every key at/around every timestamp and history() for every combination of tombstones on/off x timestamp ranges x limits, forward, backward and by seek, are compared with a version-list model, and the configurations' answer logs with each other. Further parts: all set-only histories with out-of-order timestamps (index back-end), finite retention under a manual clock with a bracketed (must-keep / may-keep) oracle, history after checkpoint/restore on both back-ends, and every distinct process-crash image of a workload that flushes and compacts with the index enabled (recovered store = model at one admissible prefix).",
+  note="Equal timestamps on one key and a limit combined with backward traversal are not judged (the statement leaves them open). Exhaustive within (n, d) and the listed parts' bounds.", ref="DESIGN.md §5 C10"),
 }
 
 NOT_YET = {}
